@@ -483,6 +483,60 @@ def intfir_correspondence(ctx, driver, budget):
         check_case(ctx, case, comp, prm, mout)
 
 
+def boundary_scan(ctx, n_cfg):
+    """Small-scope search pinning the boundary of WF: single-filter banks, every N up to a few frames.
+    Inside WF any failure is a violation; outside WF the outcome is only tallied (the evidence shows that the
+    causal boundary `S < max right support` is exact and that every centred configuration passes)."""
+    r = ctx.rng
+    grid = [(ce, left, wl, S) for ce in (False, True) for left in range(-3, 3) for wl in range(1, 7) for S in range(1, 8)]
+    if ctx.tier != "thorough":
+        r.shuffle(grid)
+        grid = grid[:n_cfg]
+    else:
+        ctx.extra["wf_boundary_scope"] = "exhaustive: style x left in [-3,2] x width in [1,6] x S in [1,7], unpadded, all N <= 3S+2w+2"
+    tally = ctx.extra.setdefault("wf_boundary", {})
+    for ce, left, wl, S in grid:
+        if ctx.out_of_time():
+            break
+        case0 = dict(S=S, filters=[[left, [[r.randrange(1, 5), 0] for _ in range(wl)]]], centered=ce, pad=False, floor=2,
+                     energy=False, power=r.random() < 0.5, real=True, window=[r.randrange(1, 5) for _ in range(2 * S)])
+        try:
+            bank, comp = make_int_computer(case0)
+            M, tr, D = params_of(case0, bank, comp)
+        except Exception as e:
+            ctx.count("ctor_error:" + type(e).__name__)
+            continue
+        is_wf = wf(case0, M, tr, D)
+        inpre = in_precondition(bank.supports, S, ce)
+        bad = None
+        for N in range(0, 3 * S + 2 * wl + 3):
+            case = dict(case0)
+            case["x"] = [r.randrange(-9, 10) for _ in range(N)]
+            case["ops"] = ["F"]
+            exp = spec_py(case, M, tr, D)
+            if comp.started:
+                comp = make_int_computer(case0)[1]
+            res = run_ops_impl(comp, case["x"], ["F"])[0]
+            rows = int_rows(res[1]) if res[0] == "ok" else None
+            ctx.evaluations += 1
+            if res[0] != "ok" or rows != exp:
+                bad = (N, res[0] if res[0] != "ok" else ("count" if len(rows) != len(exp) else "value"))
+                if is_wf:
+                    pub = dict(case, M=M, tr=tr, D=D, wf=True)
+                    ctx.case(pub, kind="boundary:wf_fail")
+                    ctx.violation(pub, exp, rows if res[0] == "ok" else res[0],
+                                  "compute_full == documented formula inside WF (small-scope boundary scan)",
+                                  tags=dict(computer="si", tracer="intfir", clause="boundary",
+                                            style="centered" if ce else "causal"))
+                break
+        key = "%s:%s:%s:%s" % ("centered" if ce else "causal", "wf" if is_wf else "nonwf",
+                               "pre" if inpre else "nopre", "all_N_ok" if bad is None else "fails:" + bad[1])
+        tally[key] = tally.get(key, 0) + 1
+        ctx.count("boundary_cfgs")
+        if inpre and not is_wf:
+            ctx.gap_cases += 1  # inside the property's precondition but outside the theorems' WF: must never happen
+
+
 def si_stream_cases(ctx, driver_c03, budget=None):
     """C01's short-integration clause: (config, N, chunking) -> concatenated compute_chunk + finalize vs compute_full
     vs the Lean model (exact integers).  Same generator and same checks as C03's own run."""
@@ -697,12 +751,14 @@ def library_oracle(ctx, n):
 
 
 def run(ctx, driver):
-    intfir_correspondence(ctx, driver, ctx.scale(700, 12000))
-    library_oracle(ctx, ctx.scale(60, 900))
+    intfir_correspondence(ctx, driver, ctx.scale(1800, 14000))
+    boundary_scan(ctx, ctx.scale(40, 0))
+    library_oracle(ctx, ctx.scale(350, 2500))
 
 
 def run_oracle_only(ctx):
-    library_oracle(ctx, ctx.scale(60, 900))
+    boundary_scan(ctx, ctx.scale(40, 0))
+    library_oracle(ctx, ctx.scale(350, 2500))
 
 
 def replay(rp):
